@@ -146,6 +146,8 @@ pub struct ExploreResult {
     pub samples: Vec<Vec<Op>>,
     pub wall_s: f64,
     pub machinery_errors: Vec<String>,
+    /// Violations of properties other than the focus: (property, count, one sample)
+    pub pruned_other: Vec<(String, u64, Found)>,
 }
 
 pub struct Limits {
@@ -155,6 +157,8 @@ pub struct Limits {
     pub threads: usize,
     pub seed: u64,
     pub fresh_thread_depth: usize,
+    /// Property whose violations stop the search; violations of other properties only prune the state
+    pub focus: Option<String>,
 }
 
 fn add_stats(a: &mut Stats, b: &Stats) {
@@ -238,6 +242,7 @@ pub fn explore(cfg: &LensCfg, lim: &Limits) -> ExploreResult {
         let stop = AtomicBool::new(false);
         let timed_out = AtomicBool::new(false);
         let found: Mutex<Vec<Found>> = Mutex::new(Vec::new());
+        let pruned: Mutex<Vec<(String, u64, Found)>> = Mutex::new(Vec::new());
         let machinery: Mutex<Vec<String>> = Mutex::new(Vec::new());
         let nthreads = lim.threads.max(1);
         const CHUNK: usize = 32;
@@ -253,6 +258,7 @@ pub fn explore(cfg: &LensCfg, lim: &Limits) -> ExploreResult {
                     let stop = &stop;
                     let timed_out = &timed_out;
                     let found = &found;
+                    let pruned = &pruned;
                     let machinery = &machinery;
                     let chunk_out = &chunk_out;
                     sc.spawn(move || {
@@ -303,7 +309,26 @@ pub fn explore(cfg: &LensCfg, lim: &Limits) -> ExploreResult {
                                             if r.violations.iter().any(|v| v.prop == "MACHINERY") {
                                                 machinery.lock().unwrap().push(format!("{:?}: {:?}", fmt_history(&hist), r.violations));
                                             }
-                                            found.lock().unwrap().push(Found { history: hist.clone(), epilogue: r.epilogue.clone(), violations: r.violations.clone() });
+                                            let relevant = match &lim.focus {
+                                                None => true,
+                                                Some(f) => r.violations.iter().any(|v| v.prop == f.as_str() || v.prop == "ANY" || v.prop == "MACHINERY"),
+                                            };
+                                            let fnd = Found { history: hist.clone(), epilogue: r.epilogue.clone(), violations: r.violations.clone() };
+                                            if relevant {
+                                                found.lock().unwrap().push(fnd);
+                                            } else {
+                                                let mut po = pruned.lock().unwrap();
+                                                let prop = r.violations[0].prop.to_string();
+                                                match po.iter_mut().find(|x| x.0 == prop) {
+                                                    Some(e) => {
+                                                        e.1 += 1;
+                                                        if (fnd.history.len(), &fnd.history) < (e.2.history.len(), &e.2.history) {
+                                                            e.2 = fnd;
+                                                        }
+                                                    },
+                                                    None => po.push((prop, 1, fnd)),
+                                                }
+                                            }
                                             continue;
                                         }
                                         // Determinism guard: replay every 1024th execution a second time
@@ -351,6 +376,12 @@ pub fn explore(cfg: &LensCfg, lim: &Limits) -> ExploreResult {
             res.double_replays += a.double_replays;
         }
         res.machinery_errors.extend(machinery.into_inner().unwrap());
+        for (prop, n, f) in pruned.into_inner().unwrap() {
+            match res.pruned_other.iter_mut().find(|x| x.0 == prop) {
+                Some(e) => e.1 += n,
+                None => res.pruned_other.push((prop, n, f)),
+            }
+        }
         let mut f = found.into_inner().unwrap();
         if !f.is_empty() {
             // Deterministic choice: shortest, then lexicographically smallest history
